@@ -125,7 +125,7 @@ Reform ==
        \/ E_Split(op, p, i)      /\ Step("Split", p, i, R_Split(op, p, i), TRUE)
        \/ E_WrapSelf(op, p, i)   /\ Step("WrapSelf", p, i, R_WrapSelf(op, p, i), WrapSelfNormOnly(op, p, i))
        \/ E_WrapSelf(op, p, i)   /\ Step("ToNamed", p, i, R_ToNamed(op, p, i), TRUE)
-       \/ E_Distribute(op, p, i) /\ Step("Distribute", p, i, R_Distribute(op, p, i), FALSE)
+       \/ E_Distribute(op, p, i) /\ Step("Distribute", p, i, R_Distribute(op, p, i), InFragment(op, p))
        \/ E_Subset(op, p, i)     /\ Step("Subset", p, i, R_Subset(op, p, i), FALSE)
 
 Next ==
